@@ -318,7 +318,7 @@ class Worker(object):
 
 # ------------------------------------------------------------------------------------------------------
 class World(object):
-    KIND_RANK = {"deliver": 0, "return": 1, "call": 2, "timer": 3, "worker": 4, "api": 5, "advance": 9}
+    KIND_RANK = {"deliver": 0, "return": 1, "call": 2, "boot": 2, "timer": 3, "worker": 4, "api": 5, "advance": 9}
 
     def __init__(self, scenario, monitors=()):
         install()
@@ -379,6 +379,9 @@ class World(object):
             self.instances.append(inst)
             inst.start()
         # notification subscriber
+        if "asl_workflow_engine" not in self.broker.exchanges and scenario.get("slow_start") == "always":
+            # (the instances are still starting up: the observer declares the notification exchange exactly as the engine will)
+            self.env_ch.exchange_declare("asl_workflow_engine", exchange_type="topic", durable=True)
         if "asl_workflow_engine" in self.broker.exchanges:
             self.env_ch.queue_declare("verif.notes", exclusive=True, auto_delete=True)
             self.env_ch.queue_bind("verif.notes", "asl_workflow_engine", routing_key="#")
@@ -475,7 +478,11 @@ class World(object):
             for ch in conn.channels:
                 if ch.is_open and ch.pending_returns and ch.pending_returns[0][3] < barrier:
                     evs.append((ch.pending_returns[0][3], 1, ("return", conn.name, ch.channel_number)))
-            if conn.pending_calls and conn.pending_calls[0][1] < barrier:
+            booting = getattr(inst, "waiting", None) is not None and inst.waiting.done()
+            if booting:
+                # start_asyncio can be resumed: like a 0 ms timer it competes with whatever arrived together with the confirmation
+                evs.append((self.step_no, 2, ("boot", conn.name)))
+            if conn.pending_calls and conn.pending_calls[0][1] < barrier and not booting:
                 evs.append((conn.pending_calls[0][1], 2, ("call", conn.name)))
             for t in due:
                 if not any(o is not t and self._precedes(o, t) for o in due):
@@ -492,6 +499,8 @@ class World(object):
             need = call.get("needs_request")
             if need and not (need in self.workers and self.workers[need].requests):
                 pass
+            elif call.get("op") in ("start", "raw") and call.get("queue", self.shared_queue) not in b.queues:
+                pass      # (a client cannot put a start event on a queue that no instance has declared yet)
             elif not (call.get("after_idle") and busy):
                 if not (call.get("after_quiet") and (busy or any_live_real_timer)):
                     evs.append((self.last_api_step, 5, ("api", self.api_pos)))
@@ -557,8 +566,12 @@ class World(object):
                 running = conn.instance
                 cb, _ = conn.pending_calls.pop(0)
                 cb()
-                if running is not None and getattr(running, "waiting", None) is not None:
-                    running.resume_boot()
+                # (the confirmation has resolved the future start_asyncio is awaiting; the coroutine itself is resumed by the loop in a
+                # later iteration - a separate 'boot' event - so frames that arrived together with the confirmation are handled first or after)
+            elif kind == "boot":
+                conn = self._conn(label[1])
+                running = conn.instance
+                running.resume_boot()
             elif kind == "timer":
                 conn = self._conn(label[1])
                 running = conn.instance
